@@ -399,7 +399,10 @@ class Probe:
             try:
                 body = json.loads(json.dumps(dict(cause.body), default=repr))
                 ess, lh = _norms(body)
+                from ..sim import observe as _obs_mod
+                cyc = _obs_mod._cycle.get()
                 probe.events.append({"uid": body.get("metadata", {}).get("uid"), "inc": runner._incarnation.get(), "t": now(),
+                                     "cyc": None if cyc is None else cyc.get("i"),
                                      "reset": bool(cause.reset), "ess_norm": ess, "lh_norm": lh, "mem": id(memory.daemons_memory)})
                 probe._mems.append(memory.daemons_memory)
             except Exception as e:  # noqa: BLE001
@@ -587,7 +590,7 @@ def run_one(sc: dict, wall: float) -> dict:
         tr["sim_error"] = f"{type(e).__name__}: {e}"
     calls = [{k: c.get(k) for k in ("t", "t_end", "uid", "id", "retry", "outcome", "delay", "n", "inc")}
              for c in tr.get("calls", []) if c.get("kind") == "timer"]
-    cycles = [{"t0": c["t0"], "t1": c.get("t1"), "uid": c["uid"], "event_type": c["event_type"], "rv": c["rv"], "ess": _essence(c["body"]),
+    cycles = [{"i": c["i"], "t0": c["t0"], "t1": c.get("t1"), "uid": c["uid"], "event_type": c["event_type"], "rv": c["rv"], "ess": _essence(c["body"]),
                "marked": bool(c["body"].get("metadata", {}).get("deletionTimestamp")), "inc": c["inc"],
                "lh_same": _lh_same(c["body"]), "ess_norm": _norms(c["body"])[0], "lh_norm": _norms(c["body"])[1]}
               for c in tr.get("cycles", [])]
@@ -887,8 +890,7 @@ def oracle(ctx: Ctx, sc: dict, tr: dict, stats: dict | None = None) -> None:
 
         def reset_time(c: dict) -> float | None:
             """when the cycle of this event reached process_spawning_cause (probe), None if it never did"""
-            ts = [e["t"] for e in tr["c10"].get("events", []) if e.get("uid") == uid and e.get("inc") == c["inc"]
-                  and c["t0"] <= e["t"] and (c.get("t1") is None or e["t"] <= c["t1"])]
+            ts = [e["t"] for e in tr["c10"].get("events", []) if e.get("cyc") == c["i"]]
             return min(ts) if ts else None
 
         def last_cycle_upto(t: float) -> float | None:
@@ -909,10 +911,10 @@ def oracle(ctx: Ctx, sc: dict, tr: dict, stats: dict | None = None) -> None:
                 seen = [c for c in changes if c["t0"] < b["t"]]
                 if seen and b["t"] < seen[-1]["t0"] + cfg["idle"]:
                     what = (f"timer {hid}: run at {b['t']} within idle={cfg['idle']} after the essential change seen at {seen[-1]['t0']}")
-                    if seen[-1].get("t1") is not None and seen[-1]["t0"] < seen[-1]["t1"] and b["t"] <= seen[-1]["t1"] \
-                            and reset_time(seen[-1]) is not None and reset_time(seen[-1]) >= b["t"]:
+                    rt_ = reset_time(seen[-1])
+                    if (seen[-1].get("t1") is None or b["t"] <= seen[-1]["t1"]) and (rt_ is None or rt_ >= b["t"]):
                         # the change was received, but its cycle had not reached process_spawning_cause yet (open finding C10-F2)
-                        ctx.oracle_fail(what + f" (its processing cycle reset idling only at {reset_time(seen[-1])})",
+                        ctx.oracle_fail(what + f" (its processing cycle reset idling only at {rt_})",
                                         {"scenario": sc, "uid": uid, "id": hid, "call": b, "change": seen[-1]["t0"]}, F2_SIG)
                     elif seen[-1].get("lh_same"):
                         # the change restored the essence recorded as last handled: kopf diffs against that, sees nothing
